@@ -419,7 +419,7 @@ func init() {
 			}
 			methods := []string{"GET", "HEAD", "POST", "G|T", "GET|5:x", "get"}
 			hosts := []string{"h", "H", "example.com", "EXAMPLE.com", "example.com:80", "h|3:GET", "1:h", "[::1]:8080"}
-			segs := []string{"a", "b", ".", "..", "", "a|b", "%7C", "a%2Fb", "5:x", "a.", "..a", "%2e", "%2E%2e"}
+			segs := []string{"a", "b", ".", "..", "", "a|b", "%7C", "a%2Fb", "5:x", "a.", "..a", "%2e", "%2E%2e", "a%252Fb", "%2541", "%25", "a%2fb", "%41"}
 			mkPath := func() string {
 				n := r.Intn(5)
 				p := ""
@@ -506,6 +506,7 @@ func init() {
 			}
 			// the two literal collisions of the unfixed tree
 			for _, pr := range [][2]string{{"/a%7Cb?c", "/a?b|c"}, {"/dir/", "/dir"}, {"/a/.", "/a/"}, {"/a/b/..", "/a/"}, {"/a/.", "/a"},
+				{"/a%252Fb", "/a%2Fb"}, {"/v/%2541", "/v/%41"}, {"/v/%41", "/v/A"}, {"/q/x%253Dy?k=1", "/q/x%3Dy?k=1"}, {"/a%25", "/a%2525"},
 				{"/a%2Fb", "/a/b"}, {"/a%2fb", "/a/b"}, {"/a%2Fb/", "/a/b/"}, {"/x/a%2F..", "/x/"}, {"/a%3Fb", "/a?b"}, {"/a%2F%2Fb", "/a/b"}} {
 				am, ah, ap, aq, _ := wire("GET", pr[0], "h")
 				bm, bh, bp, bq, _ := wire("GET", pr[1], "h")
